@@ -378,7 +378,9 @@ def program_layouts(chk, tier):
             if t:
                 ev.append({"e": "print", "tree": t, "text": D(r["jobs"][name]["text"]), "tci": D(r["jobs"][name]["tci"])})
         refs = {"src2": D(r["jobs"]["L"]["src"]), "cfg2": perturbed.cfgid(J["L"])}
-        ev.append({"e": "claim", "law": "sametree", "src": D(r["jobs"]["P"]["src"]), "cfg": perturbed.cfgid(J["P"]), "ci": True, **refs})
+        # letter case may differ only where the layout itself changes it (a "case" edit)
+        recased = any(e["t"] == "case" for e in c["beh"]["ed"])
+        ev.append({"e": "claim", "law": "sametree", "src": D(r["jobs"]["P"]["src"]), "cfg": perturbed.cfgid(J["P"]), "ci": recased, **refs})
         ev.append({"e": "claim", "law": "sametextci", "src": D(r["jobs"]["P"]["src"]), "cfg": perturbed.cfgid(J["P"]), **refs})
         events.extend(ev)
         live.append((c, r))
